@@ -24,7 +24,7 @@ type Op struct {
 
 func (o Op) String() string {
 	switch o.Kind {
-	case "resync", "restart", "apirelease", "deleteapp", "syncpodips":
+	case "resync", "restart", "apirelease", "deleteapp", "syncpodips", "storeloss":
 		return o.Kind
 	case "sched":
 		return fmt.Sprintf("sched(p%d,node#%d)", o.A, o.B)
@@ -78,7 +78,7 @@ func (h *HistSys) Init(w *world.World) {
 
 func (h *HistSys) curReplicas(w *world.World) int {
 	switch h.Class.Kind {
-	case "sts":
+	case "sts", "stsmulti":
 		return w.Replicas("StatefulSet", "ns", "a")
 	case "dp", "dppool":
 		return w.Replicas("Deployment", "ns", "d")
@@ -111,6 +111,9 @@ func (h *HistSys) Enabled(w *world.World) []Op {
 		if h.Ops["finish"] && alive && p.Spec.NodeName != "" {
 			ops = append(ops, Op{Kind: "finish", A: i})
 		}
+		if h.Ops["run"] && alive && p.Spec.NodeName != "" && p.Status.Phase != corev1.PodRunning {
+			ops = append(ops, Op{Kind: "run", A: i})
+		}
 	}
 	for j := 0; j < len(w.Pending) && j < 2; j++ {
 		if h.Ops["deliver"] {
@@ -141,6 +144,9 @@ func (h *HistSys) Enabled(w *world.World) []Op {
 	}
 	if h.Ops["syncpodips"] {
 		ops = append(ops, Op{Kind: "syncpodips"})
+	}
+	if h.Ops["storeloss"] && len(w.FIPs) > 0 {
+		ops = append(ops, Op{Kind: "storeloss"})
 	}
 	return ops
 }
@@ -227,6 +233,16 @@ func (h *HistSys) Apply(w *world.World, op Op) Obs {
 		}
 	case "syncpodips":
 		w.SyncPodIPs()
+	case "run":
+		w.SetPhase(h.pod(op.A).Key(), corev1.PodRunning)
+	case "storeloss":
+		// the FloatingIP objects are lost (e.g. migration to an empty store) and galaxy-ipam is restarted
+		for n := range w.FIPs {
+			delete(w.FIPs, n)
+		}
+		if err := w.Restart(); err != nil {
+			o.Err = err.Error()
+		}
 	}
 	o.APIn = w.APICalls - n0
 	return o
